@@ -1,5 +1,6 @@
 import SJ.Properties.C02
 import SJ.Proofs.SourceLevelB
+import SJ.Proofs.SourceLevelI
 set_option linter.unusedVariables false
 /-
 C02 — source level. The theorems of Properties/C02.lean composed with the source ties of DESIGN §6.3: each statement
@@ -67,5 +68,74 @@ theorem C02_source_advance_elem (pj : PJ) (i : Iter) (v : LVal) (vs : LVals) (lo
       (∃ w, word pj v.pos = some w ∧ i'.t = tagOf w ∧ i'.cur = payloadOf w ∧ tagOf w = WalkLayout.tagOfL v) ∧
       0 ≤ i'.addNext ∧ (i'.off : Int) + i'.addNext = v.fin ∧ OkElems pj vs v.fin hi :=
   SJ.SourceLevelB.C02_source_advance_elem pj i v vs lo hi h hhi ha hlo hl fuel hf
+
+open SJ SJ.Generated SJ.GoSem SJ.GoIter SJ.GoObject SJ.Layout SJ.WalkLayout SJ.ParseDefs SJ.MarshalExact SJ.GoMarshal SJ.SourceLevelI SJ.TrimEdge SJ.GoPJForEach in
+/-- **Accepted text → `Parse` → `ForEach` → `MarshalJSONBuffer` / `Interface()`, source level.**  ASSUMED, about the INPUT
+    only: its trimmed length `n` is below 2^50 (`SizeOK`), Go's `bytes.TrimSpace` and the JSON white-space trim agree on it
+    (`EdgeOK`: true whenever the first and last remaining bytes are plain ASCII, as for every container text), and the RFC
+    8259 grammar accepts the trimmed text as the document `v` (`Spec.containerText`).  Plus: a callback answering `nil`
+    `N ≥ 3·n + 2` times and interpreter fuel `F ≥ 21·n + 72`.
+    CONCLUDED: the parser model returns a tape `pj` denoting exactly `ofSpec v`; running the regenerated `ParsedJson.ForEach`
+    on it returns `nil` and hands the callback exactly one iterator `it`; running the regenerated
+    `Iter.MarshalJSONBuffer(dst)` from `it` returns, for every `dst`, `dst ++ renderJ (ofSpec v)` — the canonical text of
+    the value the grammar assigned to the input — and running the regenerated `Iter.Interface` from `it` returns
+    `ivalOfJ (ofSpec v)` — that value as Go `interface{}` data, maps with the last duplicate winning; both with a nil
+    error and the tape untouched.  No hypothesis about the tape, the buffers or the iterator remains. -/
+theorem C02_source_accepted_then_read (cfg : Cfg) (input : Bytes) (he : EdgeOK input) (hsz : SizeOK (trimSpace input))
+    (v : Spec.JVal) (h : Spec.containerText (jsonTrim input).toList = .accept v) :
+    ∃ pj, parse cfg input = .ok pj ∧ WF pj [ofSpec v] ∧
+      ∀ (N F : Nat), 3 * (trimSpace input).size + 2 ≤ N → 21 * (trimSpace input).size + 72 ≤ F →
+        ∃ s it, runFun goFuns goParsedJson_ForEach F ⟨feStore pj (List.replicate N false), pj.tape⟩ = .ret s [.bool false] ∧
+          s.tape = pj.tape ∧ logOf s.env = encIter it ∧
+          (∀ dst : Bytes, ∃ st, runFun goFuns goIter_MarshalJSONBuffer F ⟨initEnv pj it dst, pj.tape⟩ =
+            .ret st [.bytes (dst ++ renderJ (ofSpec v)), .bool false] ∧ st.tape = pj.tape) ∧
+          ∃ s', runFun goFuns goIter_Interface F ⟨envOf "i" it ++ bufEnv pj, pj.tape⟩ =
+            .ret s' [.iface (ivalOfJ (ofSpec v)), .bool false] ∧ s'.tape = pj.tape ∧ iterAt s'.env "i" = some it :=
+  SJ.SourceLevelI.accepted_then_read_source cfg input he hsz v h
+
+open SJ SJ.Generated SJ.GoSem SJ.GoIter SJ.GoObject SJ.Layout SJ.WalkLayout SJ.ParseDefs SJ.MarshalExact SJ.GoMarshal SJ.SourceLevelI SJ.TrimEdge SJ.GoPJForEach in
+/-- **The same for newline-delimited input** (`ParseND`): if the per-line grammar `Spec.ndText` accepts the trimmed text as
+    the documents `vs` (one per non-blank line), `ParseND` returns a tape denoting `vs.map ofSpec`, the regenerated `ForEach`
+    hands out exactly one iterator per document, in order, and from the iterator of the document `v` the regenerated
+    `Iter.MarshalJSONBuffer(dst)` returns `dst ++ renderJ (ofSpec v)` and the regenerated `Iter.Interface` returns
+    `ivalOfJ (ofSpec v)`.  Hypotheses about the input, the answers queue and fuel only, as above. -/
+theorem C02_source_acceptedND_then_read (cfg : Cfg) (input : Bytes) (he : EdgeOK input) (hsz : SizeOK (trimSpace input))
+    (vs : List Spec.JVal) (h : Spec.ndText (jsonTrim input).toList = .accept (.arr vs)) :
+    ∃ pj, parseND cfg input = .ok pj ∧ WF pj (vs.map ofSpec) ∧
+      ∀ (N F : Nat), 3 * (trimSpace input).size + 2 ≤ N → 21 * (trimSpace input).size + 72 ≤ F →
+        ∃ s its, runFun goFuns goParsedJson_ForEach F ⟨feStore pj (List.replicate N false), pj.tape⟩ = .ret s [.bool false] ∧
+          s.tape = pj.tape ∧ logOf s.env = encIters its ∧
+          Forall2 (fun v it =>
+            (∀ dst : Bytes, ∃ st, runFun goFuns goIter_MarshalJSONBuffer F ⟨initEnv pj it dst, pj.tape⟩ =
+              .ret st [.bytes (dst ++ renderJ (ofSpec v)), .bool false] ∧ st.tape = pj.tape) ∧
+            ∃ s', runFun goFuns goIter_Interface F ⟨envOf "i" it ++ bufEnv pj, pj.tape⟩ =
+              .ret s' [.iface (ivalOfJ (ofSpec v)), .bool false] ∧ s'.tape = pj.tape ∧ iterAt s'.env "i" = some it)
+            vs its :=
+  SJ.SourceLevelI.acceptedND_then_read_source cfg input he hsz vs h
+
+open SJ SJ.Generated SJ.GoSem SJ.GoIter SJ.GoObject SJ.Layout SJ.WalkLayout SJ.ParseDefs SJ.MarshalExact SJ.GoMarshal SJ.SourceLevelI SJ.TrimEdge SJ.GoPJForEach SJ.Lookup in
+/-- **Parse, `ForEach`, then `MarshalJSONBuffer` and `Interface()` on every root, source level.**  ASSUMED: only `SizeOK` and
+    that the parser model returns `pj`; a callback answering `nil` at least `3·n + 2` times (`N`), interpreter fuel
+    `F ≥ 21·n + 72`.  CONCLUDED: the tape holds root values `lvs` (erased: the document the tape denotes, `WF`, = what the
+    reference decoder reads); running the
+    regenerated `ParsedJson.ForEach` returns `nil`, leaves the tape alone and hands the callback exactly one iterator per
+    root value, in order (`logOf … = encIters its`, `Forall2`); and from each of these iterators (a) the regenerated
+    `Iter.MarshalJSONBuffer(dst)` returns `dst ++ renderJ (erase lv)` for every `dst`, (b) the regenerated `Iter.Interface`
+    returns `toIVal lv`, both with a nil error and the tape untouched.  Every side condition of the three ties (`BufOK`,
+    `len(tape) < 2^63`, views inside the tape, `OnNode`, 56-bit payloads, finite floats, the answers queue and the fuels in
+    terms of `len(tape)`) is discharged from the parser facts. -/
+theorem C02_source_parse_then_forEach (cfg : Cfg) (nd : Bool) (input : Bytes) (pj : PJ) (hsz : SizeOK (trimSpace input))
+    (h : parseAny cfg nd input = .ok pj) (N F : Nat) (hN : 3 * (trimSpace input).size + 2 ≤ N)
+    (hF : 21 * (trimSpace input).size + 72 ≤ F) :
+    ∃ lvs : List LVal, OkRoots pj lvs 0 ∧ (∀ v ∈ lvs, Tight v) ∧ WF pj (lvs.map erase) ∧
+      decodeTapeD pj = some ((lvs.map erase).map DecodeSound.toOVal) ∧
+      ∃ s its, runFun goFuns goParsedJson_ForEach F ⟨feStore pj (List.replicate N false), pj.tape⟩ = .ret s [.bool false] ∧
+        s.tape = pj.tape ∧ logOf s.env = encIters its ∧
+        Forall2 (fun lv it => RootIter pj lv it ∧
+          (∀ dst : Bytes, ∃ st, runFun goFuns goIter_MarshalJSONBuffer F ⟨initEnv pj it dst, pj.tape⟩ =
+            .ret st [.bytes (dst ++ renderJ (erase lv)), .bool false] ∧ st.tape = pj.tape) ∧
+          ∃ s', runFun goFuns goIter_Interface F ⟨envOf "i" it ++ bufEnv pj, pj.tape⟩ =
+            .ret s' [.iface (toIVal lv), .bool false] ∧ s'.tape = pj.tape ∧ iterAt s'.env "i" = some it) lvs its :=
+  SJ.SourceLevelI.parse_then_forEach_source cfg nd input pj hsz h N F hN hF
 
 end SJ.Properties.C02
